@@ -360,6 +360,18 @@ def scope_peewee(prog, rep, methods=None, rule="SCOPE"):
             if isinstance(n, ast.Call) and norm(n.func) == "EventModel.from_event" and bp is not None:
                 ok = bool(n.args) and _is_bucket_key(n.args[0], fi, bp)
                 rep.check(ok, rule, fi.short, "EventModel.from_event(bucket key)", "constructed row tied to the addressed bucket", f"from_event is given `{norm(n.args[0]) if n.args else ''}` as bucket key", fi.loc(n))
+            if isinstance(n, ast.Call) and isinstance(n.func, ast.Attribute) and n.func.attr in ("update", "delete") and isinstance(n.func.value, ast.Name) and n.func.value.id != "self" and (n.keywords or n.func.attr == "delete") and not n.args:
+                # Model.update(**fields) / Model.delete() are class-level query builders: called through an instance they still
+                # build a statement over the whole table, the instance's primary key is not part of it
+                kind_, v_ = _instance_provenance(n.func.value.id, fi, prog)
+                if kind_ in ("helper", "fetched", "constructed"):
+                    top = n
+                    while isinstance(parent(top), ast.Attribute) and isinstance(parent(parent(top)), ast.Call):
+                        top = parent(parent(top))
+                    wheres = _chain_wheres(top)
+                    model_ = "BucketModel" if kind_ == "fetched" and _root_model(v_)[0] == "BucketModel" else "EventModel"
+                    ok = bp is not None and bool(wheres) and _pw_scoped(wheres, fi, bp, model_)
+                    rep.check(ok, rule, fi.short, f"{n.func.value.id}.{n.func.attr}(...)", "restricted to the addressed bucket", f"`{norm(top)[:90]}`: {n.func.attr}() is a query builder of the model class — reached through the row object `{n.func.value.id}` it still ranges over the whole table ({'UPDATE' if n.func.attr == 'update' else 'DELETE'} without WHERE unless .where() follows), so every bucket's rows are {'overwritten' if n.func.attr == 'update' else 'deleted'}", fi.loc(n))
             if isinstance(n, ast.Call) and isinstance(n.func, ast.Attribute) and n.func.attr in ("save", "delete_instance") and isinstance(n.func.value, ast.Name):
                 recv = n.func.value.id
                 if recv in ("self",):
